@@ -28,15 +28,19 @@ func n(q, t int) func(string) int {
 	}
 }
 
+var simpleAssume = []string{
+	"the job is replaced by the harness: it forwards AssignSplits to real SourceReaders of the connector and assembles the SourceCheckpoint exactly like snapshots.jobSnapshot.toProto (split states of all runners in a seeded acknowledgement order + SourceSplitter.Checkpoint())",
+}
+
+const simpleRule = "Script: Start(nil) -> every runner's real reader gets its splits -> 0..3 ReadEvents per runner -> checkpoint (reader.Checkpoint() of every runner + splitter.Checkpoint()) -> 0..2 more reads per runner that the crash loses -> NEW splitter with 1..4 new runners Start(checkpoint) -> new readers -> 0..3 reads per runner. Oracle: per splitter incarnation every split id of the source is assigned exactly once and to a configured runner, a reader only returns records of its own splits; per split, the records read before the checkpoint followed by those read after the restore are exactly the split's sequence from its beginning without gap or repetition. non-trivial = >=1 read before the checkpoint and >=1 after the restore; distinct by configuration + read counts."
+
 func main() {
 	slog.SetDefault(slog.New(slog.NewTextHandler(io.Discard, nil)))
 	lib.Main(
-		&lib.Prop{ID: "C16", Part: "embedded-httpapi", Level: level, NCases: n(160, 6000), Run: simpleCase,
-			Assumptions: []string{
-				"the job is replaced by the harness: it forwards AssignSplits to real SourceReaders of the connector and assembles the SourceCheckpoint exactly like snapshots.jobSnapshot.toProto (split states of all runners in acknowledgement order + SourceSplitter.Checkpoint())",
-				"httpapi reads go to the repository's httpapitest server over loopback HTTP",
-			},
-			Rule: "even cases: embedded source (1..6 splits, batch 1..5), odd cases: httpapi source (20..80 unique records, server batch 1..7); 1..4 runners. Script: Start(nil) -> every runner's reader gets its splits -> seeded number of ReadEvents per runner -> checkpoint -> (more reads that the crash loses) -> NEW splitter (1..4 new runners) Start(checkpoint) -> new readers -> reads. Oracle: per splitter incarnation every split id is assigned exactly once to a configured runner; per split, the records read before the checkpoint followed by the records read after the restore are exactly the split's sequence without gap or repetition (embedded: i, i+n, i+2n..; httpapi: the topic). non-trivial = >=1 read before the checkpoint and >=1 after the restore; distinct by configuration + read counts"},
+		&lib.Prop{ID: "C16", Part: "embedded", Level: level, NCases: n(80, 3000), Run: embeddedCase, Assumptions: simpleAssume,
+			Rule: "embedded source with 1..6 splits, generator batch 1..5, 1..4 runners (cases 0..7 enumerate 1..4). " + simpleRule + " Sequence of split i of n: i, i+n, i+2n, ..."},
+		&lib.Prop{ID: "C16", Part: "httpapi", Level: level, NCases: n(80, 3000), Run: httpapiCase, Assumptions: append([]string{"httpapi reads go to the repository's httpapitest server over loopback HTTP"}, simpleAssume...),
+			Rule: "httpapi source over a topic of 20..80 unique records, server batch 1..7, 1..4 runners (cases 0..7 enumerate 1..4). " + simpleRule + " Sequence of the single split: the topic in order."},
 		&lib.Prop{ID: "C16", Part: "kinesis", Level: level, NCases: n(150, 4000), Run: kinesisCase,
 			Assumptions: []string{
 				"kinesisfake (in-repo) is the ground truth for shard lineage; requests to it are serialised by a proxy because the fake has no locking",
